@@ -630,7 +630,8 @@ class Interp:
             if self.homt is not None and isinstance(tv, (AArr, AScal)) \
                     and self.homt.unsteady(tv):
                 self.homt.taint(self, "a branch is decided by a test whose "
-                                      "outcome may change with the scale")
+                                      "outcome may change with the scale",
+                                tv)
             if isinstance(tv, ANpBool):
                 tv = ABool()             # value-dependent comparison
             if isinstance(tv, AArr):
@@ -1334,6 +1335,10 @@ class Interp:
                             e.args[0].value).startswith("(2,)"):
                     return AArr((2,))
                 if e.func.attr in ("any", "all"):
+                    if self.homt is not None and self.homt.unsteady(recv):
+                        self.homt.taint(
+                            self, "a branch is decided by a test whose "
+                            "outcome may change with the scale", recv)
                     return ABool()
                 if e.func.attr in ("sum", "max", "min"):
                     return recv
@@ -1661,6 +1666,30 @@ class Interp:
                     f"np.putmask: values of shape {vals.shape} are cycled "
                     f"over an array of shape {a.shape}")
             return None
+        if name == "np.tensordot" and len(args) >= 2 \
+                and isinstance(args[0], AArr) and isinstance(args[1], AArr):
+            axes = kw.get("axes", args[2] if len(args) > 2 else 2)
+            sa, sb = args[0].shape, args[1].shape
+            if isinstance(axes, int):
+                ax_a = tuple(range(len(sa) - axes, len(sa)))
+                ax_b = tuple(range(axes))
+            else:
+                pa, pb = axes
+                ax_a = tuple(_norm_axes(tuple(pa) if isinstance(
+                    pa, (list, tuple)) else pa, len(sa)))
+                ax_b = tuple(_norm_axes(tuple(pb) if isinstance(
+                    pb, (list, tuple)) else pb, len(sb)))
+            if len(ax_a) != len(ax_b):
+                raise ShapeError("np.tensordot: axis lists of different "
+                                 "length")
+            for i, j in zip(ax_a, ax_b):
+                if bdim(sa[i], sb[j]) != sa[i] or sa[i] != sb[j]:
+                    raise ShapeError(
+                        f"np.tensordot contracts an axis of size {sa[i]} "
+                        f"with one of size {sb[j]}")
+            return AArr(tuple(d for i, d in enumerate(sa) if i not in ax_a)
+                        + tuple(d for j, d in enumerate(sb)
+                                if j not in ax_b))
         if name == "np.trace" and isinstance(args[0], AArr):
             sh = args[0].shape
             if len(sh) < 2:
